@@ -207,6 +207,16 @@ class World:
                 return outcome(lambda: st.setProperty(css.Property("top", "2px")))
             other = css.CSSStyleDeclaration(cssText="bottom: 3px")
             return outcome(lambda: st.setProperty(other.getProperties(all=True)[0]))
+        if op == "kidinsertlist":
+            if a["j"] >= len(s.cssRules):
+                return "IndexSizeErr", None
+            cont = s.cssRules[a["j"]]
+            rl = css.CSSRuleList()
+            for c in a["cs"]:
+                o = kid_object(c)
+                self.remember(o)
+                list.append(rl, o)      # (a detached rule list has no append of its own)
+            return outcome(lambda: cont.insertRule(rl, 0))
         if op in ("kidinsert", "kidadd", "kiddelete"):
             if a["j"] >= len(s.cssRules):
                 return "IndexSizeErr", None
